@@ -19,6 +19,14 @@ def m_c(inputs):
     return {'yc': np.atleast_1d(inputs['ya']) * np.atleast_1d(inputs['x2']) + 1.0 / (2.0 + np.atleast_1d(inputs['yb']) ** 2)}
 
 
+def m_c_nan(inputs):
+    """like m_c, but the model fails (returns NaN) for large x2 — never at the first (centre) evaluation: the failed points
+    are imputed, so the saved training data contains imputed values"""
+    x2 = np.atleast_1d(inputs['x2'])
+    y = np.atleast_1d(inputs['ya']) * x2 + 1.0 / (2.0 + np.atleast_1d(inputs['yb']) ** 2)
+    return {'yc': np.where(x2 > 1.9, np.nan, y)}
+
+
 def m_d(inputs):
     return {'yd': np.atleast_1d(inputs['yb']) - 2.0 * np.atleast_1d(inputs['yc'])}
 
